@@ -145,6 +145,8 @@ def main(pos, opts, seed, seeded=False):
             for name, item in items:
                 if opts.get("only") and opts["only"] != name:
                     continue
+                if opts.get("match") and not re.search(opts["match"], name):
+                    continue
                 sh(["git", "-C", scratch, "checkout", "--", "."])
                 if seeded:
                     sh(["git", "-C", scratch, "apply", item])
@@ -164,6 +166,8 @@ def main(pos, opts, seed, seeded=False):
     tag = "" if seed == common.DEFAULT_SEED else "-seed%d" % seed
     if opts.get("only"):
         tag += "-only-" + opts["only"]
+    if opts.get("match"):
+        tag += "-only-" + re.sub(r"[^A-Za-z0-9]+", "_", opts["match"])
     out = os.path.join(common.VERIF, "reports", ("seeded" if seeded else "sensitivity") + "-" + ("all" if not pos else pos[0]) + tag + ".json")
     json.dump({"seed": seed, "results": results}, open(out, "w"), indent=1)
     missed = [r for r in results if not r["detected"]]
